@@ -2511,13 +2511,13 @@ def c19_cases(tier, seed):
         cases.append(c)
     # a thread that prints without pause while many short reads start and end: every message still exactly once, whether it
     # was written directly (no read in progress), handed to the reading thread, or caught between the two
-    for i in range(6 if tier == "thorough" else 3):
+    for i in range(48 if tier == "thorough" else 24):
         mode = ["emacs", "vi"][i % 2]
         nreads = 250
         cmds = [Cmd(["F12"], "noop"), Cmd(["Enter"], "enter")]
         chunks = [b"".join(p_tty.key_bytes(k) for k in cmd.keys) for cmd in cmds]
         c = script_case(cmds, mode=mode, chunks=chunks, cols=80, prompt="> ", timeout=0 if mode == "vi" else "none", reads=nreads + 1)
-        c.meta.update({"printers": 1, "prints": {}, "no_model": 1, "between_us": [1500, 400, 3000][i % 3],
+        c.meta.update({"printers": 1, "prints": {}, "no_model": 1, "between_us": [150, 300, 1500, 100, 300, 3000][i % 6],
                        "flood": {"k": 0, "msgs": [(0, "<0:%d:f>\n" % j) for j in range(2 * nreads)], "enters": nreads}})
         cases.append(c)
     # bursts: several threads are told to print at once, without waiting for one another (the editor may find
@@ -2576,6 +2576,9 @@ def eval_c19(res, cases_out, stream, width):
         rows = scr.text_rows(min(scr.rows) if scr.rows else 0)
         whole = "\n".join(rows)
         joined = scr.raw_text()
+        if c.meta.get("flood"):
+            # (messages racing with the start and end of reads: counted in the bytes written, whatever a later repaint does to the row)
+            whole = joined = raw["out"].decode("utf-8")
         ok = True
         for (th, m) in allmsgs:
             tag = m.split(":")[0] + ":" + m.split(":")[1] + ":"
